@@ -8,7 +8,7 @@ from vlib import render as RR
 
 ID = "C17"
 # look-alikes of prelude names (vlib/defs.py HOSTILE) this check's derives are immune to on the unchanged tree
-HOSTILE_OK = ['Default', 'From', 'Into', 'Result', 'Option', 'Some', 'Ok', 'Iterator', 'Clone', 'AsRef', 'Send', 'PhantomData', 'IterGet', 'm_matches', 'm_assert', 'm_fmt', 'c_binders', 'no_implicit_prelude']
+HOSTILE_OK = ['Default', 'From', 'Into', 'Result', 'Option', 'Some', 'Ok', 'Iterator', 'Clone', 'AsRef', 'Send', 'PhantomData', 'IterGet', 'm_matches', 'm_assert', 'm_fmt', 'c_binders', 'no_implicit_prelude', 'ByValue']
 PROP_FILE = "Props/C17.v"
 RULE = ("fixed names: unit / tuple / named variants x {identifier, serialize_all, serialize, to_string} x prefix x ASCII and "
         "multi-byte names x a grid of format specs (fill {none,*,é,0} x align {none,<,>,^} x width x precision, run-time width/"
